@@ -44,7 +44,9 @@ def containsBehavior (l : TL) (b : List (Var × Rat)) : Except Err Bool :=
 /-- `is_polytope_empty(a, b)` for a matrix with rows `rows` and `ncols` columns -/
 def polyEmpty (O : Oracle) (rows : TL) (ncols : Nat) : Except Err Bool :=
   if rows.length = 0 then .ok false
-  else if rows.length * ncols = 0 then .ok (rows.any fun t => decide (t.const < 0))   -- no columns: `bool(np.any(b < 0))`
+  else if rows.length * ncols = 0 then
+    -- no columns: `bool(np.any(b < 0))` in the repaired source, `False` in the pinned one (`Gen.emptyNoColsBySign`, read off the source)
+    .ok (Gen.emptyNoColsBySign && rows.any fun t => decide (t.const < 0))
   else match O.lp [] rows with
     | .infeasible => .ok true
     | .optimal _ _ => .ok false
